@@ -747,6 +747,8 @@ fn main() {
             receivers_naive(acc);
         } else if u == 5 {
             receivers_zoned(acc);
+            // a zone whose skipped / repeated hours lie at the range ends: no invalid value, no panic
+            chrono_mc::gfzone::range_end_safety(acc, VALID);
         } else if u == 6 {
             parsed_extremes(acc);
         } else if u < 7 + nsp {
